@@ -12,7 +12,6 @@ import (
 	"fmt"
 	"os"
 	"path/filepath"
-	"runtime"
 	"runtime/debug"
 	"runtime/metrics"
 	"runtime/pprof"
@@ -99,7 +98,16 @@ func c10BatchMain(args []string) int {
 	// Address-space backstop: a length field turned into gigabytes must fail inside this child, not take the host down.
 	lim := syscall.Rlimit{Cur: 12 << 30, Max: 12 << 30}
 	syscall.Setrlimit(syscall.RLIMIT_AS, &lim)
-	debug.SetGCPercent(50)
+	// Opening a store allocates tens of MB of buffers (journal: 5+5+10 MB; iteration: 4 MB per table file). Collect rarely and
+	// keep the heap mapped, otherwise every case pays page faults for freshly scavenged memory.
+	switch os.Getenv("VERIF_C10_GC") {
+	case "50":
+		debug.SetGCPercent(50)
+	case "100":
+	default:
+		debug.SetGCPercent(-1)
+		debug.SetMemoryLimit(1 << 30)
+	}
 	if pf := os.Getenv("VERIF_C10_PROF"); pf != "" { // cost diagnosis of the harness itself
 		if f, err := os.Create(pf); err == nil {
 			pprof.StartCPUProfile(f)
@@ -184,7 +192,7 @@ func c10BatchMain(args []string) int {
 				}
 				done <- res
 			}()
-			c10ReadAll(fx, dir, cs.Focus, &res)
+			c10ReadAll(fx, dir, cs.Focus, batch.AllocLimit, &res)
 		}()
 		var res c10Result
 		select {
@@ -209,9 +217,6 @@ func c10BatchMain(args []string) int {
 		}
 		emit(res)
 		os.RemoveAll(dir)
-		if res.AllocMB > 64 {
-			runtime.GC()
-		}
 	}
 	return 0
 }
@@ -262,8 +267,12 @@ func c10Apply(data []byte, cs c10Case) []byte {
 }
 
 // c10ReadAll opens the store in dir and reads everything, comparing with the fixture's model.
-func c10ReadAll(fx *c10Fixture, dir string, focus []string, res *c10Result) {
+func c10ReadAll(fx *c10Fixture, dir string, focus []string, allocLimitMB int64, res *c10Result) {
 	ctx := context.Background()
+	a0 := c10AllocBytes()
+	// tooMuch: once the allocation budget of a case is blown the verdict (huge-alloc) is fixed; the remaining read paths
+	// would repeat the same multi-GB allocations
+	tooMuch := func() bool { return allocLimitMB > 0 && int64((c10AllocBytes()-a0)>>20) > allocLimitMB }
 	noteErr := func(at string, err error) {
 		res.Errors++
 		if res.Err == "" {
@@ -410,6 +419,9 @@ func c10ReadAll(fx *c10Fixture, dir string, focus []string, res *c10Result) {
 	}
 
 	for _, h := range sorted {
+		if tooMuch() {
+			return
+		}
 		has, err := st.Has(ctx, h)
 		if err != nil {
 			noteErr("Has", err)
@@ -432,6 +444,9 @@ func c10ReadAll(fx *c10Fixture, dir string, focus []string, res *c10Result) {
 				checkChunk("Get", h, ch.Data(), false)
 			}
 		}
+	}
+	if tooMuch() {
+		return
 	}
 	// HasMany
 	if abs, err := st.HasMany(ctx, allAddrs.Copy()); err != nil {
@@ -469,6 +484,9 @@ func c10ReadAll(fx *c10Fixture, dir string, focus []string, res *c10Result) {
 			}
 		}
 	}
+	if tooMuch() {
+		return
+	}
 	got2 := map[hash.Hash]int{}
 	err = st.GetManyCompressed(ctx, probes.Copy(), func(_ context.Context, tc nbs.ToChunker) {
 		mu.Lock()
@@ -497,6 +515,9 @@ func c10ReadAll(fx *c10Fixture, dir string, focus []string, res *c10Result) {
 				absent("GetManyCompressed", h)
 			}
 		}
+	}
+	if tooMuch() {
+		return
 	}
 	// full iteration and count
 	seen := map[hash.Hash]int{}
